@@ -153,36 +153,48 @@ func (se *symExec) condOf(c ssa.Value) (key string, positive bool, ok bool) {
 }
 
 func (se *symExec) run(start *ssa.BasicBlock, initial symText) {
-	type frame struct {
-		b     *ssa.BasicBlock
-		pred  *ssa.BasicBlock
-		env   map[ssa.Value]symText
-		conds map[string]bool
-		out   symText
-		seen  map[*ssa.BasicBlock]bool
-	}
-	var walk func(f frame)
-	walk = func(f frame) {
-		if se.bad != "" || len(se.paths) > se.limit {
-			if len(se.paths) > se.limit {
-				se.bad = "too many paths"
+	se.runFrom(start, initial, map[string]bool{}, 0)
+}
+
+type symFrame struct {
+	b     *ssa.BasicBlock
+	idx   int // first instruction to execute
+	pred  *ssa.BasicBlock
+	env   map[ssa.Value]symText
+	conds map[string]bool
+	out   symText
+	seen  map[*ssa.BasicBlock]bool
+}
+
+func (se *symExec) runFrom(start *ssa.BasicBlock, initial symText, conds map[string]bool, depth int) {
+	var walk func(f symFrame)
+	walk = func(f symFrame) {
+		if se.bad != "" {
+			return
+		}
+		if len(se.paths) > se.limit {
+			se.bad = "too many paths"
+			return
+		}
+		seen := f.seen
+		env := f.env
+		if f.idx == 0 {
+			if f.seen[f.b] {
+				se.bad = "loop in " + load.FnName(se.fn)
+				return
 			}
-			return
-		}
-		if f.seen[f.b] {
-			se.bad = "loop in " + load.FnName(se.fn)
-			return
-		}
-		seen := map[*ssa.BasicBlock]bool{f.b: true}
-		for k := range f.seen {
-			seen[k] = true
-		}
-		env := map[ssa.Value]symText{}
-		for k, v := range f.env {
-			env[k] = v
+			seen = map[*ssa.BasicBlock]bool{f.b: true}
+			for k := range f.seen {
+				seen[k] = true
+			}
+			env = map[ssa.Value]symText{}
+			for k, v := range f.env {
+				env[k] = v
+			}
 		}
 		out := append(symText{}, f.out...)
-		for _, in := range f.b.Instrs {
+		for ii := f.idx; ii < len(f.b.Instrs); ii++ {
+			in := f.b.Instrs[ii]
 			switch x := in.(type) {
 			case *ssa.Phi:
 				for i, p := range f.b.Preds {
@@ -203,33 +215,33 @@ func (se *symExec) run(start *ssa.BasicBlock, initial symText) {
 							se.bad = "non-constant format"
 							return
 						}
-						args := varargs(x.Call.Args[1])
-						ai := 0
-						for len(format) > 0 {
-							i := strings.IndexByte(format, '%')
-							if i < 0 {
-								out = append(out, textAtom{Const: format})
-								break
+						out = append(out, se.printfText(format, varargs(x.Call.Args[1]), env)...)
+					}
+					continue
+				}
+				// a helper of the module that receives the value being printed and the printer: execute it in line
+				if se.printer != nil && depth < 3 {
+					if callee := sx.Callee(x); callee != nil && callee.Blocks != nil && load.IsModPath(pkgPathOf(callee)) {
+						ri, pi := -1, -1
+						for i, a := range x.Call.Args {
+							if a == se.recv {
+								ri = i
 							}
-							out = append(out, textAtom{Const: format[:i]})
-							if i+1 >= len(format) {
-								break
+							if a == se.printer {
+								pi = i
 							}
-							verb := format[i+1]
-							format = format[i+2:]
-							switch verb {
-							case '%':
-								out = append(out, textAtom{Const: "%"})
-							case 's', 'v', 'd':
-								if ai < len(args) {
-									out = append(out, se.evalText(args[ai], env, 0)...)
-								} else {
-									out = append(out, textAtom{Other: "missing argument"})
-								}
-								ai++
-							default:
-								out = append(out, textAtom{Other: "verb %" + string(verb)})
+						}
+						if ri >= 0 && pi >= 0 && ri < len(callee.Params) && pi < len(callee.Params) {
+							sub := &symExec{fn: callee, recv: callee.Params[ri], printer: callee.Params[pi], limit: se.limit}
+							sub.runFrom(callee.Blocks[0], out, f.conds, depth+1)
+							if sub.bad != "" {
+								se.bad = sub.bad
+								return
 							}
+							for _, sp := range sub.paths {
+								walk(symFrame{f.b, ii + 1, f.pred, env, sp.conds, sp.text, seen})
+							}
+							return
 						}
 					}
 				}
@@ -255,22 +267,60 @@ func (se *symExec) run(start *ssa.BasicBlock, initial symText) {
 							continue // infeasible: contradicts an earlier test of the same field
 						}
 						conds[key] = truth
-					} else if se.printer != nil {
-						// the printer's arm: conditions that are not field tests (type switch plumbing) - follow both
-					} else {
+					} else if se.printer == nil {
 						se.bad = "condition not over receiver fields: " + describeVal(x.Cond)
 						return
 					}
-					walk(frame{s, f.b, env, conds, out, seen})
+					walk(symFrame{s, 0, f.b, env, conds, out, seen})
 				}
 				return
 			case *ssa.Jump:
-				walk(frame{f.b.Succs[0], f.b, env, f.conds, out, seen})
+				walk(symFrame{f.b.Succs[0], 0, f.b, env, f.conds, out, seen})
 				return
 			}
 		}
 	}
-	walk(frame{start, nil, map[ssa.Value]symText{}, map[string]bool{}, initial, nil})
+	walk(symFrame{start, 0, nil, map[ssa.Value]symText{}, conds, initial, nil})
+}
+
+func pkgPathOf(fn *ssa.Function) string {
+	if pk := load.FnPkg(fn); pk != nil {
+		return pk.Path()
+	}
+	return ""
+}
+
+// printfText renders a constant format with symbolic arguments.
+func (se *symExec) printfText(format string, args []ssa.Value, env map[ssa.Value]symText) symText {
+	var out symText
+	ai := 0
+	for len(format) > 0 {
+		i := strings.IndexByte(format, '%')
+		if i < 0 {
+			out = append(out, textAtom{Const: format})
+			break
+		}
+		out = append(out, textAtom{Const: format[:i]})
+		if i+1 >= len(format) {
+			break
+		}
+		verb := format[i+1]
+		format = format[i+2:]
+		switch verb {
+		case '%':
+			out = append(out, textAtom{Const: "%"})
+		case 's', 'v', 'd':
+			if ai < len(args) {
+				out = append(out, se.evalText(args[ai], env, 0)...)
+			} else {
+				out = append(out, textAtom{Other: "missing argument"})
+			}
+			ai++
+		default:
+			out = append(out, textAtom{Other: "verb %" + string(verb)})
+		}
+	}
+	return out
 }
 
 func runSpecialText(c *core.Ctx) {
